@@ -344,7 +344,32 @@ func c08d(c *Ctx) {
 			if !strings.HasPrefix(v, "builtin:append(") || !strings.Contains(v, "."+f) {
 				ok = false
 			}
+			// one entry at a time, in the iteration of the entry loop that parsed it
+			if len(appendElems(st.Val)) != 1 || !isInLoopRegion(st.Block()) {
+				ok = false
+			}
 		}
+		// every entry literal built in the function goes straight into the statement's list
+		elemType := map[string]string{"MapScripts": "MapScript", "TableMapScripts": "TableMapScript"}[f]
+		instrs(fn, func(in ssa.Instruction) {
+			a, isA := in.(*ssa.Alloc)
+			if !isA || a.Comment != "complit" || !typeIs(a.Type(), "ast", elemType) {
+				return
+			}
+			direct := false
+			for _, ci := range callsIn(fn) {
+				call, isCall := ci.(*ssa.Call)
+				if !isCall || calleeName(call) != "builtin:append" {
+					continue
+				}
+				for _, e := range appendElems(call) {
+					if u, isU := e.(*ssa.UnOp); isU && u.X == ssa.Value(a) && strings.Contains(c.term(fn, call.Call.Args[0]), "."+f) {
+						direct = true
+					}
+				}
+			}
+			c.Check(direct, "append-only/"+f+"/entry-appended-in-place", c.W.Pos(a.Pos()), "the entry is appended to "+f+" where it is parsed", "a "+elemType+" entry is not appended directly to the statement's "+f+" in the iteration that parsed it: entries would not keep their source order")
+		})
 		want := 2
 		if f == "TableMapScripts" {
 			want = 1
